@@ -84,6 +84,12 @@ pub enum Job {
     /// others found by sweeping two values over all of GF(256)*): drives the decoder through
     /// several singular steps within one block while staying within the correction capacity
     HankelSingular { si: usize, base: Base, block: usize, positions: Vec<usize>, j1: usize },
+    /// syndrome vectors enumerated by their Hankel singularity profile: depth-first over S_1..S_(2*depth-1),
+    /// three choices per syndrome; for the corner entry S_(2j-1) of the leading minor H_j one choice is
+    /// the value that makes H_j singular (det H_j is affine in it), so every pattern of singular and
+    /// regular steps of a Levinson/Berlekamp-type decoder up to `depth` occurs; the remaining syndromes
+    /// follow two fixed tails; realised as an error on the EC positions (any weight)
+    HankelProfile { si: usize, base: Base, block: usize, depth: usize, first: [u8; 2] },
     /// 10x10: all words within distance `dist` of the codeword whose first error is (pos, val)
     Ball10 { base: Base, pos: usize, val: u8, dist: usize, values_full: bool },
 }
@@ -423,6 +429,111 @@ pub fn expand(job: &Job, f: &mut dyn FnMut(&[u8], &[u8], CaseInfo)) {
                         r[g] = orig[g] ^ ys[q];
                     }
                     f(&orig, &r, CaseInfo { max_block_weight: w });
+                }
+            }
+        }
+        Job::HankelProfile { si, base, block, depth, first } => {
+            let sy = &SYMBOLS[*si];
+            let k = sy.ec_per_block();
+            let idx = blk_idx(sy, *block);
+            let n = idx.len();
+            let orig = base_codeword(*si, *base);
+            let mut m: Vec<Vec<u8>> = (0..k).map(|i| (0..k).map(|j| gf::pow(gf::pow(2, i + 1), k - 1 - j)).collect()).collect();
+            let inv = invert(&mut m);
+            let np = (2 * *depth - 1).min(k);
+            fn det(syn: &[u8], j: usize) -> u8 {
+                let mut m: Vec<Vec<u8>> = (0..j).map(|a| (0..j).map(|b| syn[a + b]).collect()).collect();
+                let mut d = 1u8;
+                for c in 0..j {
+                    let piv = match (c..j).find(|r| m[*r][c] != 0) {
+                        Some(p) => p,
+                        None => return 0,
+                    };
+                    m.swap(c, piv);
+                    d = gf::mul(d, m[c][c]);
+                    let iv = gf::inv(m[c][c]);
+                    for r in c + 1..j {
+                        if m[r][c] != 0 {
+                            let f2 = gf::mul(m[r][c], iv);
+                            for x in c..j {
+                                let a = gf::mul(f2, m[c][x]);
+                                m[r][x] ^= a;
+                            }
+                        }
+                    }
+                }
+                d
+            }
+            let mut syn = vec![0u8; k.max(np)];
+            syn[0] = first[0];
+            if np > 1 {
+                syn[1] = first[1];
+            }
+            let mut r = orig.clone();
+            // iterative DFS over positions 2..np
+            let mut choice = vec![0usize; np];
+            let mut p = 2.min(np);
+            let cands = |syn: &mut Vec<u8>, p: usize| -> [u8; 3] {
+                if p % 2 == 0 {
+                    let j = p / 2 + 1;
+                    syn[p] = 0;
+                    let a = det(syn, j);
+                    syn[p] = 1;
+                    let b = a ^ det(syn, j);
+                    if b != 0 {
+                        let root = gf::mul(a, gf::inv(b));
+                        [root, root ^ 1, root ^ 0x53]
+                    } else {
+                        [0, 1, 0x53]
+                    }
+                } else {
+                    [0, 1, 0x1D]
+                }
+            };
+            let emit = |syn: &[u8], r: &mut Vec<u8>, f: &mut dyn FnMut(&[u8], &[u8], CaseInfo)| {
+                if syn[..k].iter().all(|x| *x == 0) {
+                    return;
+                }
+                for j in 0..k {
+                    let mut e = 0u8;
+                    for i in 0..k {
+                        e ^= gf::mul(inv[j][i], syn[i]);
+                    }
+                    let g = idx[n - k + j];
+                    r[g] = orig[g] ^ e;
+                }
+                f(&orig, r, CaseInfo { max_block_weight: usize::MAX });
+            };
+            if np <= 2 {
+                emit(&syn, &mut r, f);
+            } else {
+                let mut cur: Vec<[u8; 3]> = vec![[0; 3]; np];
+                cur[p] = cands(&mut syn, p);
+                loop {
+                    if choice[p] == 3 {
+                        choice[p] = 0;
+                        if p == 2 {
+                            break;
+                        }
+                        p -= 1;
+                        choice[p] += 1;
+                        continue;
+                    }
+                    syn[p] = cur[p][choice[p]];
+                    if p + 1 == np {
+                        // two tails for the remaining syndromes
+                        for tail in 0..2 {
+                            for q in np..k {
+                                syn[q] = if tail == 0 { 0 } else { (q as u8).wrapping_mul(0x3B) | 1 };
+                            }
+                            emit(&syn, &mut r, f);
+                        }
+                        choice[p] += 1;
+                    } else {
+                        p += 1;
+                        cur[p] = cands(&mut syn, p);
+                        choice[p] = 0;
+                    }
                 }
             }
         }
@@ -771,6 +882,37 @@ pub fn rs_hankel_singular(tier: Tier, jobs: &mut Vec<Job>) {
                         }
                         jobs.push(Job::HankelSingular { si, base: Base::Lcg(9), block, positions: positions.clone(), j1 });
                     }
+                }
+            }
+        }
+    }
+}
+
+
+/// RS-P: syndrome vectors by Hankel singularity profile (any weight; for the no-panic and the
+/// no-false-success properties).
+pub fn rs_hankel_profile(tier: Tier, jobs: &mut Vec<Job>) {
+    for si in 0..48 {
+        let sy = &SYMBOLS[si];
+        let t = sy.t();
+        if t < 3 {
+            continue;
+        }
+        let quick_pick = matches!(sy.total(), 24 | 40) || sy.total() == 2178;
+        if tier == Tier::Quick && !quick_pick {
+            continue;
+        }
+        let depth = match (tier, sy.ec_per_block()) {
+            (Tier::Quick, k) if k > 30 => t.min(5),
+            (Tier::Quick, _) => t.min(6),
+            (Tier::Thorough, k) if k > 30 => t.min(5),
+            (Tier::Thorough, _) => t.min(7),
+        };
+        let blocks: Vec<usize> = if sy.blocks > 1 { vec![sy.blocks - 1] } else { vec![0] };
+        for block in blocks {
+            for a in [0u8, 1, 2] {
+                for b in [0u8, 1, 0x1D] {
+                    jobs.push(Job::HankelProfile { si, base: Base::Lcg(11), block, depth, first: [a, b] });
                 }
             }
         }
